@@ -30,6 +30,33 @@ CLAIMS = {
                 technique="exhaustive enumeration of operation sequences; write/flush protocol invariant checked on the logged OS-call trace of every transition"),
 }
 
+CLAIMS.update({
+    "C01": dict(engine=E1, ref="DESIGN.md §5 C01",
+                text="every placement of a structured finite address domain (function base class x in-page offset incl. page-straddling entries x trampoline page displacement forced through the OS model x fake displacement across the 64-bit range and around the rel32 boundary x install kind) is run through the real x86-64 installer; the bytes written are followed by an independent abstract machine to their destination and, where the fake is mappable, the patched function is really called",
+                note="address domain as listed in evidence.coverage.bound; Windows/macOS paths of common.rs not compiled; install flavours above the trait level are covered by the E3 histories (C02)",
+                technique="exhaustive enumeration of a structured address/OS-answer domain on the real installer with an OS model; independent decoder + real execution as oracle"),
+    "C07": dict(engine=E3, ref="DESIGN.md §5 C07",
+                text="every sequence of begin / matching call / non-matching call / scope end / panic / outside call up to the depth, all lifetimes of a history evaluating the same fake!(…, times: N) source line, N in {0,1,2}, each history from a pristine process image; every lifetime must get the verdict the reference model gives a first lifetime",
+                note="bounded by depth and N; one when+returns+times arm (the arm matrix is C08)",
+                technique="exhaustive enumeration of operation sequences up to a depth on the real code (fork per history) against a reference model"),
+    "C11": dict(engine=E1, ref="DESIGN.md §5 C11",
+                text="the real allocator + installer (x86-64 and AArch64-Linux, page sizes 4/16/64 KiB) run against a model of the neighbourhood: empty, full, full except one free page at each listed offset incl. both window ends and just outside, and every single (thorough: double) deviation of the kernel's answer; success must branch to exactly the kept mapping, failure must be a panic with the function untouched and every obtained mapping given back",
+                note="one-free-page offsets: boundary + strided set in quick, all 65 537 for selected configurations in thorough (evidence lists which)",
+                technique="exhaustive enumeration of environment layouts and bounded OS-answer deviations on the real allocator with an OS model"),
+    "C13": dict(engine=E1, ref="DESIGN.md §5 C13",
+                text="every instruction sequence the x86-64 installer emits over the C01 placement domain is executed on an abstract machine with a fully symbolic register file (so the verdict holds for all register/stack contents): write set within {rax,r10,r11}, no read of a caller register, stack pointer unchanged; plus assembly probes on the host CPU with walking patterns in all argument, vector, stack and callee-saved positions for the short and long trampoline form",
+                note="x87/MXCSR not probed; ARM register discipline is judged under C15/C16",
+                technique="exhaustive enumeration of emitted instruction sequences over the placement domain, symbolic-register abstract machine, concrete host probes"),
+    "C15": dict(engine=E1, ref="DESIGN.md §5 C15",
+                text="the real AArch64 emitters run on the host: trampoline for every 16-bit value in every chunk position against 4 backgrounds plus a boundary cross product; Linux entry branch for word-aligned displacements through the allocator path and beyond the window through the private encoder; macOS ADRP/ADD/BR encoder over page differences x low-12 boundary values; every result executed by an independent A64 abstract machine, every distinct word cross-decoded by llvm-mc-14",
+                note="no AArch64 hardware; quick tier strides the displacement and page-difference ranges (thorough enumerates them)",
+                technique="exhaustive enumeration of encoder inputs on the real emitters; independent decoder/abstract machine cross-checked with llvm-mc"),
+    "C16": dict(engine=E1, ref="DESIGN.md §5 C16",
+                text="the real 32-bit ARM installer run on the host for the three entry cases x in-page positions (incl. page-straddling) x fake addresses (each byte exhaustively, both instruction-set states) x three target bases; an independent A32/T32 abstract machine checks the literal actually read, the interworking branch, the bytes changed and restored, and the registers written",
+                note="no ARM hardware; known finding: Thumb sequence uses r7 (see known_findings.txt)",
+                technique="exhaustive enumeration of encoder inputs on the real emitter; independent A32/T32 abstract machine cross-checked with llvm-mc"),
+})
+
 PENDING = {
     "C01": "engine E1", "C04": "engine E2", "C05": "engine E3/E2", "C06": "engine E3/E2", "C07": "engine E3",
     "C08": "engine E4", "C09": "engine E4", "C10": "engine E4/E1", "C11": "engine E1", "C13": "engine E1",
